@@ -146,7 +146,7 @@ func runRsScenario(sc RsScenario) string {
 			case rr <= ts[i]:
 				evs[i] = e + ":0"
 			default:
-				evs[i] = fmt.Sprintf("%s:%d", e, (rr-ts[i]).Milliseconds())
+				evs[i] = fmt.Sprintf("%s:%d", e, (rr - ts[i]).Milliseconds())
 			}
 		}
 	}
